@@ -165,6 +165,39 @@ theorem C07_statements_before_no_transaction_group (p : Prep) (ps : List Prep) (
   have := key ps [p] (fun q hq => h q (by simp [hq])) (by simp)
   simpa [cut, cutLoop, hp.1, hp.2] using this
 
+/-- the flags `prepareGroup` gives the statements of a group are the ones `_prepare_sql` assigns: outside
+a transaction for `NoTransactionSQL`, a new transaction for `NewTransactionSQL` - cleared again after
+the FIRST statement that is handed on -, inside the current one otherwise (read by the translator on
+every run) -/
+theorem C07_source_prepare_sql_flags : DEvo.Generated.prepareSqlFlags =
+    ["new_transaction = False",
+     "[isinstance(statements, NoTransactionSQL)] use_transaction = False",
+     "[isinstance(statements, NewTransactionSQL)] new_transaction = True",
+     "[isinstance(statements, NewTransactionSQL)] use_transaction = True",
+     "[not isinstance(statements, NewTransactionSQL)] use_transaction = True",
+     "new_transaction = False (after yield)"] := by decide
+
+/-- **a `NewTransactionSQL` group is ONE batch**: its statements are cut off from what precedes them and
+stay together (only the first asks for the new transaction) -/
+theorem C07_new_transaction_group_is_one_batch (s : String) (r : List String)
+    (hs : keepStmt s = true) (hr : ∀ t ∈ r, keepStmt t = true) (batch : List Prep) (last : Option Bool) :
+    cutLoop true (prepareGroup (.newTx (s :: r))) batch last =
+      (if batch.isEmpty then [] else [(batch, last)]) ++
+        [(⟨s, true, true⟩ :: r.map (fun t => ⟨t, true, false⟩), some true)] := by
+  have hf : (s :: r).filter keepStmt = s :: r := by
+    simp only [List.filter_eq_self]
+    intro t ht
+    rcases List.mem_cons.mp ht with h | h
+    · subst h; exact hs
+    · exact hr t h
+  simp only [prepareGroup, hf]
+  unfold cutLoop
+  simp only [Bool.true_or, if_true]
+  have := cutLoop_ordinary (r.map (fun t => (⟨t, true, false⟩ : Prep))) [⟨s, true, true⟩]
+    (by intro q hq; simp at hq; obtain ⟨t, _, rfl⟩ := hq; simp) (by simp)
+  rw [this]
+  simp
+
 /-- the source yields every batch with its own flag (read by the translator on every run) -/
 theorem C07_source_batch_flag : DEvo.Generated.batchYieldsOwnFlag = true := by decide
 
